@@ -57,6 +57,8 @@ def main():
     ap.add_argument("names", nargs="*")
     ap.add_argument("--tier", default="quick")
     ap.add_argument("--all-checks", action="store_true")
+    ap.add_argument("--related", action="store_true",
+                    help="every claimed check whose property is anchored in a file the patch touches")
     ap.add_argument("--verify", action="store_true")
     ap.add_argument("--seed", default="0")
     a = ap.parse_args()
@@ -87,6 +89,12 @@ def main():
                 print("%-12s verify: demo clean rc=%d patched rc=%d suite rc=%d (%s) -> %s"
                       % (name, rc0, rc1, rc2, tail, "OK" if ok else "NOT A VALID SEED"))
             props = have if a.all_checks else [p for p in [meta["property"]] + meta.get("also", []) if p in have]
+            if a.related:
+                sys.path.insert(0, str(VERIF / "harness"))
+                from lib import fingerprint
+                touched = {l.split(" b/", 1)[1].strip() for l in (d / "patch.diff").read_text().splitlines()
+                           if l.startswith("diff --git ")}
+                props = props + [p for p in have if p not in props and touched & set(fingerprint.anchored_files(p))]
             for pid in props:
                 env = dict(os.environ, VERIF_REPO=str(tree), VERIF_SEED=a.seed,
                            VERIF_SCRATCH="/var/tmp/hypatia-verif-seed.%s.%d" % (name, os.getpid()),
